@@ -159,8 +159,9 @@ def run(prop, tier, seed):
         f = rel.Facts(tid, meta)
 
         def missing(name, c=c):
-            return (c["d"] != "None" and name not in has[c["d"]] and name in CL.ATTRS) or \
-                   (name not in has[c["p"]] and name in CL.ATTRS)
+            if name not in CL.ATTRS:
+                return False
+            return (c["d"] == "None") or (name not in has[c["d"]]) or (name not in has[c["p"]])
 
         class _E(Exception):
             pass
